@@ -282,8 +282,9 @@ class C12(Prop):
 PROP = C12()
 
 MANIFEST = dict(
-    technique="Lean 4 proof over an executable state-machine model of Rpms.add / Modules.add / ExtraFiles.add (checks in source order, "
-              "then the chain of setdefault calls) + step-by-step differential correspondence with the real objects + per-call "
+    technique="Lean 4 proof over an executable state-machine model of Rpms.add / Modules.add / ExtraFiles.add that INTERPRETS the "
+              "statement list of each method regenerated from the source on every run (refusals by test and exception class, in source "
+              "order, then the chain of setdefault calls; tools/gen_builders.py) + step-by-step differential correspondence with the real objects + per-call "
               "frame/content/refusal oracle on the real mapping",
     text="Theorems (any mapping, any arguments, any history): C12_{rpms,modules,extra}_history (after ANY history of calls a further "
          "call is either refused - ValueError/TypeError exactly when a precondition check fails, identical mapping - or accepted, and then "
@@ -291,6 +292,7 @@ MANIFEST = dict(
          "read before); _refusal for every mapping (also ill-shaped loaded ones: the chain of setdefault calls cannot fail half-way); "
          "_refuses (each listed precondition => ValueError/TypeError); _plan (canonical N-E:V-R.A of the source package / canonical UID, "
          "lower-cased key); C12_relative (exact characterisation of _relative_to: strips root.rstrip('/')+'/' only, textual prefixes "
-         "kept); C12_dump_for_tree (one entry per stored record, base stripped, KeyError otherwise); witnesses for the two known findings.",
+         "kept); C12_scripts (the generated statement lists are the documented ones: removing, adding or reordering a refusal changes the "
+         "model and breaks this); C12_empty_path_refused (F30 repaired: all three builders); C12_dump_for_tree (one entry per stored record, base stripped, KeyError otherwise); witness for the known finding F31.",
     note="The NEVRA / UID parsers are the generated regexes run by the engine model (tie G); str.lower() is ASCII-only in the model.",
     ref="7/C12")
